@@ -64,6 +64,12 @@ var GNPool = []GNPoolEntry{
 	}},
 	{"dns-ip6-arpa-short", func() *der.Node { return GNDNS("8.b.d.0.1.0.0.2.ip6.arpa") }},
 	{"dns-arpa-other-zone", func() *der.Node { return GNDNS("home.arpa") }},
+	// GeneralName entries of types the profile does not define: the parser skips them, the lints that walk the raw
+	// extension themselves must not stop at them
+	{"gn-high-tag-31", func() *der.Node { return der.CtxPrim(31, []byte{0}) }},
+	{"gn-high-tag-200-constructed", func() *der.Node { return der.Ctx(200, der.Str(der.TagUTF8, "x")) }},
+	{"gn-tag-9", func() *der.Node { return der.CtxPrim(9, []byte("nine")) }},
+	{"gn-tag-30-empty", func() *der.Node { return der.CtxPrim(30, nil) }},
 	{"dns-empty", func() *der.Node { return GNDNS("") }},
 	{"dns-non-ia5", func() *der.Node { return der.CtxPrim(2, []byte("w\xc3\xbcrst.example.com")) }},
 	{"dns-nul", func() *der.Node { return der.CtxPrim(2, []byte("www.exa\x00mple.com")) }},
